@@ -391,3 +391,47 @@ def run(ck):
     wit_ = cfg_rf.must_pass_from((cfg_rf.entry, -1), lambda e, s_=set(strips): e in s_ or any(rf.is_in(x, e) for x in s_) and rf.nodes[e]['k'] == 'ExprWithCleanups') if strips else ['no erase on advertised_endpoints']
     ck.ob('C34.pub', 'C34.pub/refresh-strips-auto-entries-always', wit_ is None, rf.loc(),
           'every refresh first removes the non-manual entries of config_.advertised_endpoints (also when the mode is Off: entries of an earlier run must not stay published)', wit_)
+
+    # ---- parse_ipv4 refuses a host only for the reasons a string is not a dotted quad ------------------------------------------------
+    # (a host that parse_ipv4 refuses is treated as a name, i.e. as routable: an added refusal — a length pre-check, a "fast
+    # reject" — lets private literals through the filter)
+    from props.common import refusal_reasons
+    from sa.canon import norm as _norm, V as _V, C as _C
+    pv4 = P.fn(ANON + 'parse_ipv4')
+    ck.touch(pv4)
+    size_ = ('mcall', 'size', _V('host'))
+    ALLOWED = [_norm(x) for x in (
+        ('>=', _V('start'), size_),                                   # ran out of input before the fourth octet
+        ('==', _V('end'), _C(2 ** 64 - 1)),                           # no further dot (std::string::npos)
+        ('==', _V('end'), _V('start')),                               # empty octet
+        ('u!', ('call', 'isdigit', _V('ch'))),                        # not a digit
+        ('>', _V('value'), _C(255)),                                  # octet out of range
+    )]
+    rr = refusal_reasons(pv4, lambda r: const_value(pv4, pv4.kids(r)[0]) == 0)
+    ck.floor('C34.v4', 'refusing exits of parse_ipv4', len(rr), 5)
+    extra = []
+    for r_, conds in rr:
+        for c_ in (conds or [('unconditional',)]):
+            ok_ = c_ in ALLOWED
+            if not ok_:
+                extra.append((r_, c_))
+    ck.ob('C34.v4', 'C34.v4/parse-refusals-closed', not extra, pv4.loc(extra[0][0]) if extra else pv4.loc(),
+          'parse_ipv4 returns false only because: input exhausted, no dot, empty octet, non-digit, octet > 255 (and the final length test)'
+          + ('' if not extra else ' — other cause: %r' % (extra[0][1],)))
+
+    # ---- normalize_ipv6 removes the brackets first, then the zone: "[fe80::1%eth0]" reduces to the bare literal ------------------------
+    from sa.paths import must_precede as _mp34
+    n6 = P.fn(ANON + 'normalize_ipv6')
+    ck.touch(n6)
+    pct = [i for i in n6.walk() if (n6.nodes[i].get('callee') or '').endswith('::find') and any(n6.nodes[j]['k'] == 'CharacterLiteral' and int(n6.nodes[j].get('v', 0)) == 37 for j in n6.walk(i))]
+    brk = [i for i in n6.walk() if (n6.nodes[i].get('callee') or '').endswith('::substr') and len([a for a in n6.call_args(i) if n6.nodes[a]['k'] != 'CXXDefaultArgExpr']) == 2 and
+           const_value(n6, n6.call_args(i)[0]) == 1]
+    ck.floor('C34.v6', 'zone search in normalize_ipv6', len(pct), 1)
+    ck.floor('C34.v6', 'bracket strip in normalize_ipv6', len(brk), 1)
+    from sa.paths import Cfg as _Cfg34
+    cfg6 = _Cfg34.of(n6)
+    # the bracket strip is decided before the zone search runs: the if-statement holding it comes first on every path
+    brk_if = [a for a in n6.ancestors(brk[0]) if n6.nodes[a]['k'] == 'IfStmt']
+    order_ok = bool(brk_if) and cfg6.dominates(cfg6.locate(n6.nodes[brk_if[0]]['cond']), cfg6.locate(pct[0]))
+    ck.ob('C34.v6', 'C34.v6/brackets-before-zone', order_ok, n6.loc(pct[0]),
+          'normalize_ipv6 tests for and strips the enclosing brackets before it cuts the %zone (a zone inside the brackets hides the closing bracket otherwise)')
